@@ -199,6 +199,77 @@ theorem iradonE_agree (sino : List (List ℝ)) (thetas : Option (List ℝ)) (out
         rw [iradonTorchE_ok _ _ _ _ _ nm hth' hnm, iradonOut_agree]
         unfold iradonSkE; simp [hth', hnm]
 
+/-! ## the write loop refines the map -/
+
+theorem foldl_set_zipIdx {α β : Type} (f : α → β) (l : List α) :
+    ∀ (k : Nat) (pre rest : List β), pre.length = k → rest.length = l.length →
+      (l.zipIdx k).foldl (fun out p => out.set p.2 (f p.1)) (pre ++ rest) = pre ++ l.map f := by
+  induction l with
+  | nil => intro k pre rest _ hr; simp at hr; simp [hr]
+  | cons a l ih =>
+      intro k pre rest hp hr
+      cases rest with
+      | nil => simp at hr
+      | cons r rest' =>
+          simp only [List.zipIdx_cons, List.foldl_cons, List.map_cons]
+          have hset : (pre ++ r :: rest').set k (f a) = (pre ++ [f a]) ++ rest' := by
+            rw [List.set_append_right _ _ (by omega)]
+            simp [hp]
+          rw [hset, ih (k + 1) (pre ++ [f a]) rest' (by simp [hp]) (by simpa using hr)]
+          simp
+
+theorem zipWith_zipWith_left {α β : Type} (F G : α → β → α) : ∀ (xs : List α) (ys : List β),
+    List.zipWith F (List.zipWith G xs ys) ys = List.zipWith (fun o y => F (G o y) y) xs ys := by
+  intro xs
+  induction xs with
+  | nil => intro ys; simp
+  | cons x xs ih => intro ys; cases ys with
+    | nil => simp
+    | cons y ys => simp [ih]
+
+theorem zipWith_fst_eq {α β : Type} : ∀ (xs : List α) (ys : List β), xs.length = ys.length →
+    List.zipWith (fun o _ => o) xs ys = xs := by
+  intro xs
+  induction xs with
+  | nil => intro ys _; simp
+  | cons x xs ih => intro ys h; cases ys with
+    | nil => simp at h
+    | cons y ys => simp at h; simp [ih ys h]
+
+theorem foldl_zipWith {α β γ : Type} (g : γ → α → β → α) (ops : List γ) : ∀ (init : List α) (ys : List β),
+    init.length = ys.length →
+    ops.foldl (fun out p => List.zipWith (g p) out ys) init
+      = List.zipWith (fun o y => ops.foldl (fun o p => g p o y) o) init ys := by
+  induction ops with
+  | nil => intro init ys h; simp [zipWith_fst_eq init ys h]
+  | cons p ops ih =>
+      intro init ys h
+      simp only [List.foldl_cons]
+      rw [ih _ ys (by simp [h]), zipWith_zipWith_left]
+
+theorem radonTorchBatchLoop_eq (imgs : List (List (List ℝ))) (thetas : List ℝ) :
+    radonTorchBatchLoop imgs thetas = radonTorchBatch imgs thetas := by
+  unfold radonTorchBatchLoop radonTorchBatch
+  rw [foldl_zipWith (fun (p : ℝ × Nat) (o : List (List ℝ)) (img : List (List ℝ)) => o.set p.2 (projRow img p.1)) _ _ imgs (by simp)]
+  rw [List.zipWith_map_left]
+  have h : ∀ img : List (List ℝ),
+      (thetas.zipIdx.foldl (fun o p => o.set p.2 (projRow img p.1)) (List.replicate thetas.length (List.replicate img.length (Num.zero : ℝ))))
+        = radonTorch img thetas := by
+    intro img
+    have := foldl_set_zipIdx (fun θ => projRow img θ) thetas 0 [] (List.replicate thetas.length (List.replicate img.length (Num.zero : ℝ))) rfl (by simp)
+    simp only [List.nil_append] at this
+    rw [this]; rfl
+  rw [List.zipWith_self]
+  simp only [h]
+
+theorem radonTorchLoop_eq (img : List (List ℝ)) (thetas : List ℝ) :
+    radonTorchLoop img thetas = radonTorch img thetas := by
+  unfold radonTorchLoop
+  have := foldl_set_zipIdx (fun θ => projRow img θ) thetas 0 []
+    (List.replicate thetas.length (List.replicate img.length (Num.zero : ℝ))) rfl (by simp)
+  simp only [List.nil_append] at this
+  rw [this]; rfl
+
 /-! ## sessions -/
 
 theorem runSession_foldl (step : Unit → Op ℝ → Unit × Outcome ℝ) (ops : List (Op ℝ)) (acc : List (Outcome ℝ)) :
